@@ -180,4 +180,278 @@ theorem fast_compound_eq {ε} (fuel : Nat) (c : Compound) (h : c.offset ≤ c.da
   have _ := h
   exact fast_compound_eq' fuel c
 
+/-! ## Compound.parse -/
+
+theorem fast_parseGo_eq (d : Bytes) (off : Nat) :
+    Fast.parseGo d.length (d.drop off) off = Compound.parseLoop d off := by
+  have hlen : (d.drop off).length = d.length - off := List.length_drop
+  fun_induction Compound.parseLoop d off with
+  | case1 off hlt h4 =>
+    have hshort : (d.drop off).length < 4 := by omega
+    unfold Fast.parseGo
+    rw [if_pos hlt]
+    split
+    · rename_i a b x y t hr
+      have := congrArg List.length hr
+      simp only [List.length_cons] at this
+      omega
+    · rfl
+  | case2 off hlt h4 rest hs pl hl hpl =>
+    cases sliceFrom_ok_inv hs
+    obtain ⟨a, b, x, y, t, hr⟩ := exists_cons4 (l := d.drop off) (by omega)
+    rw [hr, parseLength_cons4] at hl
+    cases hl
+    unfold Fast.parseGo
+    rw [if_pos hlt, hr]
+    simp only
+    rw [if_pos hpl]
+  | case3 off hlt h4 rest hs pl hl hpl ih =>
+    cases sliceFrom_ok_inv hs
+    obtain ⟨a, b, x, y, t, hr⟩ := exists_cons4 (l := d.drop off) (by omega)
+    have hl' := hl
+    rw [hr, parseLength_cons4] at hl'
+    cases hl'
+    rw [← ih List.length_drop]
+    conv => lhs; unfold Fast.parseGo
+    rw [if_pos hlt, hr]
+    simp only
+    rw [if_neg hpl, ← hr, List.drop_drop]
+  | case4 off hlt h4 rest hs e hl =>
+    cases sliceFrom_ok_inv hs
+    obtain ⟨a, b, x, y, t, hr⟩ := exists_cons4 (l := d.drop off) (by omega)
+    rw [hr, parseLength_cons4] at hl
+    cases hl
+  | case5 off hlt h4 rest hs hl =>
+    cases sliceFrom_ok_inv hs
+    obtain ⟨a, b, x, y, t, hr⟩ := exists_cons4 (l := d.drop off) (by omega)
+    rw [hr, parseLength_cons4] at hl
+    cases hl
+  | case6 off hlt h4 e hs =>
+    unfold sliceFrom at hs; rw [if_pos (by omega)] at hs; cases hs
+  | case7 off hlt h4 hs =>
+    unfold sliceFrom at hs; rw [if_pos (by omega)] at hs; cases hs
+  | case8 off hge =>
+    unfold Fast.parseGo
+    rw [if_neg hge]
+
+theorem fast_compoundParse_eq (d : Bytes) : Fast.compoundParse d = Compound.parse d := by
+  unfold Fast.compoundParse Compound.parse
+  have := fast_parseGo_eq d 0
+  rw [List.drop_zero] at this
+  rw [this]
+  rfl
+
+/-! ## Sdes.parse -/
+
+theorem fast_itemParseN_eq (base : Nat) (d : Bytes) :
+    Fast.itemParseN base d d.length = SdesItem.parse base d := rfl
+
+theorem fast_itemGo_eq (base : Nat) (d : Bytes) (off : Nat) (acc : List SdesItem) :
+    Fast.itemGo base d.length (d.drop off) off acc = SdesChunk.itemLoop base d off acc.reverse := by
+  generalize hacc : acc.reverse = racc
+  fun_induction SdesChunk.itemLoop base d off racc generalizing acc with
+  | case1 off racc hlt hz =>
+    unfold Fast.itemGo
+    have hh : (d.drop off).head? = some d[off] := by
+      rw [List.head?_drop, List.getElem?_eq_getElem hlt]
+    have hz' : d[off] = 0 := by simpa using hz
+    rw [if_pos hlt, hh, hz', hacc]
+    simp
+  | case2 off racc hlt hz item e hp ih =>
+    have hh : (d.drop off).head? = some d[off] := by
+      rw [List.head?_drop, List.getElem?_eq_getElem hlt]
+    have hN : Fast.itemParseN (base + off) (d.drop off) (d.length - off)
+        = SdesItem.parse (base + off) (d.drop off) := by
+      rw [← fast_itemParseN_eq, List.length_drop]
+    rw [hp] at hN
+    have hnz : ¬ ((some d[off] == some (0 : UInt8)) = true) := by simpa using hz
+    rw [← ih (item :: acc) (by simp [hacc])]
+    conv => lhs; unfold Fast.itemGo
+    rw [if_pos hlt, hh, if_neg hnz]
+    split
+    · rename_i item' e' heq
+      rw [hN] at heq
+      cases heq
+      rw [List.drop_drop]
+    · rename_i er heq
+      rw [hN] at heq; cases heq
+    · rename_i heq
+      rw [hN] at heq; cases heq
+  | case3 off racc hlt hz er hp =>
+    have hh : (d.drop off).head? = some d[off] := by
+      rw [List.head?_drop, List.getElem?_eq_getElem hlt]
+    have hN : Fast.itemParseN (base + off) (d.drop off) (d.length - off)
+        = SdesItem.parse (base + off) (d.drop off) := by
+      rw [← fast_itemParseN_eq, List.length_drop]
+    rw [hp] at hN
+    have hnz : ¬ ((some d[off] == some (0 : UInt8)) = true) := by simpa using hz
+    unfold Fast.itemGo
+    rw [if_pos hlt, hh, if_neg hnz]
+    split
+    · rename_i item' e' heq
+      rw [hN] at heq; cases heq
+    · rename_i er' heq
+      rw [hN] at heq; cases heq; rfl
+    · rename_i heq
+      rw [hN] at heq; cases heq
+  | case4 off racc hlt hz hp =>
+    have hh : (d.drop off).head? = some d[off] := by
+      rw [List.head?_drop, List.getElem?_eq_getElem hlt]
+    have hN : Fast.itemParseN (base + off) (d.drop off) (d.length - off)
+        = SdesItem.parse (base + off) (d.drop off) := by
+      rw [← fast_itemParseN_eq, List.length_drop]
+    rw [hp] at hN
+    have hnz : ¬ ((some d[off] == some (0 : UInt8)) = true) := by simpa using hz
+    unfold Fast.itemGo
+    rw [if_pos hlt, hh, if_neg hnz]
+    split
+    · rename_i item' e' heq
+      rw [hN] at heq; cases heq
+    · rename_i er' heq
+      rw [hN] at heq; cases heq
+    · rfl
+  | case5 off racc hge =>
+    unfold Fast.itemGo
+    rw [if_neg hge, hacc]
+
+theorem fast_chunkParseN_eq (base : Nat) (d : Bytes) :
+    Fast.chunkParseN base d d.length = SdesChunk.parse base d := by
+  unfold Fast.chunkParseN SdesChunk.parse
+  by_cases h4 : d.length < 4
+  · simp only [if_pos h4]
+  · have hs : (slice d 0 4 : R ParseError Bytes) = .ok (d.take 4) := by
+      unfold slice
+      rw [if_pos ⟨by omega, by omega⟩, List.drop_zero]
+    have hg := fast_itemGo_eq base d 4 []
+    simp only [List.reverse_nil] at hg
+    simp only [if_neg h4, hs, R.ok_bind, hg]
+
+theorem fast_chunkGo_eq (d : Bytes) (chunksEnd : Nat) (hce : chunksEnd ≤ d.length) (off : Nat)
+    (acc : List SdesChunk) :
+    Fast.chunkGo chunksEnd ((d.take chunksEnd).drop off) off acc
+      = Sdes.chunkLoop d chunksEnd off acc.reverse := by
+  generalize hacc : acc.reverse = racc
+  fun_induction Sdes.chunkLoop d chunksEnd off racc generalizing acc with
+  | case1 off racc hlt s hs c e hp ih =>
+    have hs' : s = (d.take chunksEnd).drop off := by
+      unfold slice at hs
+      rw [if_pos ⟨by omega, hce⟩] at hs
+      cases hs; rfl
+    subst hs'
+    have hN : Fast.chunkParseN off ((d.take chunksEnd).drop off) (chunksEnd - off)
+        = SdesChunk.parse off ((d.take chunksEnd).drop off) := by
+      rw [← fast_chunkParseN_eq]
+      congr 1
+      simp only [List.length_drop, List.length_take]
+      omega
+    rw [hp] at hN
+    rw [← ih (c :: acc) (by simp [hacc])]
+    conv => lhs; unfold Fast.chunkGo
+    rw [if_pos hlt]
+    split
+    · rename_i c' e' heq
+      rw [hN] at heq
+      cases heq
+      rw [List.drop_drop]
+    · rename_i er heq
+      rw [hN] at heq; cases heq
+    · rename_i heq
+      rw [hN] at heq; cases heq
+  | case2 off racc hlt s hs er hp =>
+    have hs' : s = (d.take chunksEnd).drop off := by
+      unfold slice at hs
+      rw [if_pos ⟨by omega, hce⟩] at hs
+      cases hs; rfl
+    subst hs'
+    have hN : Fast.chunkParseN off ((d.take chunksEnd).drop off) (chunksEnd - off)
+        = SdesChunk.parse off ((d.take chunksEnd).drop off) := by
+      rw [← fast_chunkParseN_eq]
+      congr 1
+      simp only [List.length_drop, List.length_take]
+      omega
+    rw [hp] at hN
+    unfold Fast.chunkGo
+    rw [if_pos hlt]
+    split
+    · rename_i c' e' heq
+      rw [hN] at heq; cases heq
+    · rename_i er' heq
+      rw [hN] at heq; cases heq; rfl
+    · rename_i heq
+      rw [hN] at heq; cases heq
+  | case3 off racc hlt s hs hp =>
+    have hs' : s = (d.take chunksEnd).drop off := by
+      unfold slice at hs
+      rw [if_pos ⟨by omega, hce⟩] at hs
+      cases hs; rfl
+    subst hs'
+    have hN : Fast.chunkParseN off ((d.take chunksEnd).drop off) (chunksEnd - off)
+        = SdesChunk.parse off ((d.take chunksEnd).drop off) := by
+      rw [← fast_chunkParseN_eq]
+      congr 1
+      simp only [List.length_drop, List.length_take]
+      omega
+    rw [hp] at hN
+    unfold Fast.chunkGo
+    rw [if_pos hlt]
+    split
+    · rename_i c' e' heq
+      rw [hN] at heq; cases heq
+    · rename_i er' heq
+      rw [hN] at heq; cases heq
+    · rfl
+  | case4 off racc hlt er hs =>
+    unfold slice at hs
+    rw [if_pos ⟨by omega, hce⟩] at hs
+    cases hs
+  | case5 off racc hlt hs =>
+    unfold slice at hs
+    rw [if_pos ⟨by omega, hce⟩] at hs
+    cases hs
+  | case6 off racc hge =>
+    unfold Fast.chunkGo
+    rw [if_neg hge, hacc]
+
+theorem fast_sdesParse_eq (d : Bytes) : Fast.sdesParse d = Sdes.parse d := by
+  unfold Fast.sdesParse Sdes.parse
+  cases hc : checkPacket 4 202 d with
+  | err e => rfl
+  | panic => rfl
+  | ok u =>
+    simp only [R.ok_bind]
+    cases hpad : (parsePadding d : R ParseError (Option UInt8)) with
+    | err e => rfl
+    | panic => rfl
+    | ok p =>
+      simp only [R.ok_bind]
+      split
+      · rfl
+      · have hg := fast_chunkGo_eq d (d.length - (p.getD 0).toNat) (by omega) 4 []
+        simp only [List.reverse_nil] at hg
+        rw [hg]
+
+end Rtcp.Proofs
+
+namespace Rtcp.Proofs
+open Rtcp Rtcp.Impl
+
+theorem fast_kindParse_eq (k : Kind) (d : Bytes) : Fast.kindParse k d = k.parse d := by
+  cases k <;> simp [Fast.kindParse, Kind.parse, fast_sdesParse_eq]
+
+theorem fast_packetParse_eq (d : Bytes) : Fast.packetParse d = Packet.parse d := by
+  unfold Fast.packetParse Packet.parse
+  by_cases h : d.length < 4
+  · simp [h]
+  · simp only [h, ↓reduceIte]
+    cases ht : (parsePacketType d : R ParseError UInt8) with
+    | ok t =>
+      simp only [bind, R.bind]
+      by_cases h2 : t == 202
+      · have : t = 202 := by simpa using h2
+        subst this
+        simp [fast_kindParse_eq]
+      · simp [h2]
+    | err e => simp [bind, R.bind]
+    | panic => simp [bind, R.bind]
+
 end Rtcp.Proofs
